@@ -17,6 +17,66 @@ from harness.drivers.c15 import run_history, probe_all
 DEPS = ("gen/Gen_EnvHist.tla", "Environment.tla")
 
 
+def analyses(env, z):
+    """Every analysis of the environment's long-lived oracles / walkers on one term, as result records."""
+    from harness.envcalls import rec
+    from harness import term_io
+    from pysmt.oracles import get_logic
+    import pysmt.rewritings as rw
+
+    def text(fn):
+        try:
+            return str(fn())
+        except Exception as ex:
+            return "raises " + type(ex).__name__
+    out = [rec("text", s=" | ".join([
+        text(lambda: env.theoryo.get_theory(z)), text(lambda: get_logic(z, env)), text(lambda: env.qfo.is_qf(z)),
+        text(lambda: sorted(map(str, env.typeso.get_types(z)))), text(lambda: sorted(v.symbol_name() for v in z.get_free_variables())),
+        text(lambda: [z.size(k) for k in range(6)]), text(lambda: z.get_type())]))]
+    for fn in (lambda: z.simplify(), lambda: rw.nnf(z, env) if z.get_type().is_bool_type() else z):
+        try:
+            out.append(rec("term", t=term_io.export(fn())))
+        except Exception as ex:
+            out.append(rec("err", s=type(ex).__name__))
+    try:
+        out.append(rec("terms", ts=[term_io.export(a) for a in z.get_atoms()]) if z.get_type().is_bool_type() else rec("text", s="-"))
+    except Exception as ex:
+        out.append(rec("err", s=type(ex).__name__))
+    return out
+
+
+def shared_subterm_events(ck, terms, id0):
+    """History = every analysis of a TLC-generated term T; probes = the same analyses of T's direct
+    sub-terms (whose memoised results the history may have touched) and of T again; twin = a fresh
+    environment in which T is only built."""
+    from harness.common import fresh_env
+    from harness import term_io
+    evs = []
+    for k, j in enumerate(terms):
+        try:
+            ea = fresh_env()
+            ta = term_io.build_public(j, ea)
+            subs_a = [c for c in ta.args() if c.args()][:3]
+            if not subs_a:
+                continue
+            analyses(ea, ta)
+            pa = [r for c in subs_a for r in analyses(ea, c)] + analyses(ea, ta)
+            eb = fresh_env()
+            tb = term_io.build_public(j, eb)
+            subs_b = [c for c in tb.args() if c.args()][:3]
+            pb = [r for c in subs_b for r in analyses(eb, c)] + analyses(eb, tb)
+        except term_io.Unrepresentable:
+            continue
+        except Exception:
+            continue            # the constructors rejected the generated term
+        if len(pa) != len(pb):
+            continue
+        evs.append({"id": id0 + len(evs), "kind": "twin", "h": [], "pa": pa, "pb": pb, "rep": [1] * len(pa), "term": j})
+        ck.count()
+        ck.nontrivial(("shared", term_io.term_key(j)))
+    return evs
+
+
 def run(ck):
     warnings.simplefilter("ignore")
     quick = ck.tier == "quick"
@@ -45,6 +105,19 @@ def run(ck):
         ck.count()
         if h:
             ck.nontrivial(tuple(h))
+    l2 = gen_corpus("L2", shards=16)
+    lq = gen_corpus("LQ")
+    nested = [j for j in l2 + lq if any(c["a"] for c in j["a"])]
+    # stratified: every (root operator, child operators) shape is represented (1 per shape quick, 8 thorough)
+    groups = {}
+    for j in nested:
+        groups.setdefault((j["op"], tuple(c["op"] for c in j["a"])), []).append(j)
+    chosen = []
+    for key in sorted(groups):
+        g = groups[key]
+        chosen += ck.rng.sample(g, min(len(g), 1 if quick else 8))
+    shared = shared_subterm_events(ck, chosen, len(evs))
+    evs += shared
     verdicts, st = tlc.validate_events("Trace_Pure", evs, constants={"Seed": 0, "Cap": 8})
     ck.add_tlc(st)
     w = World()
@@ -53,10 +126,16 @@ def run(ck):
     byid = {e["id"]: e for e in evs}
     for i, fails in verdicts.items():
         e = byid[i]
+        if "term" in e:
+            from harness.drivers.c01 import shape
+            for cl in fails:
+                ck.violation({"kind": "twin", "clause": cl, "family": "analyses of a sub-term after analysing the term", "shape": shape(e["term"])}, {"event": e})
+            continue
         for cl in fails:
             bad = [pnames[j] for j in range(len(e["pa"])) if e["pa"][j] != e["pb"][j] or e["rep"][j] == 0][:4]
             ck.violation({"kind": "twin", "clause": cl, "history": [names[c - 1] for c in e["h"]][:6], "probes": bad}, {"event": e})
     ck.part("histories", exhaustive_len_le_2=len(hists), simulated_len8=len(longs), used=len(picked), probes=len(pnames))
+    ck.part("shared_subterms", terms=len(shared), analyses_per_term=4)
     ck.sample({"history": [names[c - 1] for c in evs[40]["h"]], "probe": pnames[0], "A": evs[40]["pa"][0], "B": evs[40]["pb"][0]})
     ck.cov["exhaustive"] = True
     ck.cov["rule"] = ("call histories enumerated by TLC (all sequences of length <= 2 over the 20-call alphabet, simulated length 8) x 18 "
